@@ -1347,6 +1347,8 @@ func (g *vC11Gen) entry() *vJ {
 		add("inCall", jStr("1"))
 	case 7:
 		add("inCall", jNum("6"))
+	case 8:
+		add("inCall", jNull())
 	}
 	switch g.r.intn(8) {
 	case 0:
@@ -1357,6 +1359,13 @@ func (g *vC11Gen) entry() *vJ {
 		add("permissions", jStr("x"))
 	case 3:
 		add("permissions", jArr())
+	case 4:
+		// JSON null decodes to an untyped nil interface: the class "absent value where a typed one is expected"
+		add("permissions", jNull())
+	case 5:
+		add("permissions", jArr(jNull()))
+	case 6:
+		add("permissions", jArr(jStr("publish-media"), jNull()))
 	}
 	switch g.r.intn(6) {
 	case 0:
@@ -1365,6 +1374,8 @@ func (g *vC11Gen) entry() *vJ {
 		add("userId", jStr(""))
 	case 2:
 		add("userId", jNum("3"))
+	case 3:
+		add("userId", jNull())
 	}
 	if g.r.chance(1, 6) {
 		add("extra", jObj("deep", jArr(jObj("x", jNull()))))
